@@ -7,7 +7,7 @@ import os
 import random
 import re
 
-from vf import core
+from vf import core, graph, tlaval
 
 META = {
     'property_id': 'C14',
@@ -45,6 +45,7 @@ TIERS = {
 
 NUM_SHAPES = 16 + 11 * 11 + 14      # Envelope!NumShapes
 HANDLERS = ['propagate', 'serverinfo', 'partstatus', 'notify', 'replreq', 'leaderoffset']
+NOENT = {'op': 'none', 's': 'absent', 'p': 'first', 'r': 'self', 'e': 'zero'}
 CANON = {'len': 28, 'magicOK': True, 'verOK': True, 'hl': 8, 'crcFlag': False, 'otherFlags': False, 'typeOK': True,
          'crcOK': True}
 
@@ -59,6 +60,64 @@ def shape_sweep(first_id, seed):
         out.append({'id': first_id + len(out), 'cfg': {'seed': seed},
                     'steps': steps[k:k + 24] + [{'a': 'PublishRaw', 'i': CANON, 'pbOK': True, 'id': 1, 'shape': 'hdrReserved'},
                                                 {'a': 'ReadBack'}]})
+    return out
+
+
+def source_sites():
+    """the NATS subscribe / request call sites of the server package (file:function:call:count), read from the
+    source tree under test; TLC compares them with Envelope!SourceSites"""
+    root = os.path.join(core.REPO, 'server')
+    count = {}
+    for f in sorted(os.listdir(root)):
+        if not f.endswith('.go') or f.endswith('_test.go') or f.startswith('verif_'):
+            continue
+        fn = '?'
+        for line in open(os.path.join(root, f), errors='replace'):
+            m = re.match(r'func (?:\([^)]*\) )?(\w+)', line)
+            if m:
+                fn = m.group(1)
+            if line.lstrip().startswith('//'):
+                continue
+            calls = re.findall(r'\bnc\w*\.(Subscribe|Request|RequestMsg)\(', line)
+            calls += re.findall(r'\.(QueueSubscribe|QueueSubscribeSync|SubscribeSync|ChanSubscribe|ChanQueueSubscribe|RequestWithContext)\(', line)
+            for c in calls:
+                k = '%s:%s:%s' % (f, fn, c)
+                count[k] = count.get(k, 0) + 1
+    return sorted('%s:%d' % (k, v) for k, v in count.items())
+
+
+def subject_sweep(first_id, seed, tier, stats):
+    """The subject dimension of the live part replayed COMPLETELY: TLC enumerates MC_Envelope_sweep.cfg (one message
+    from the initial state: every fed subject of the inventory x every byte class x every entity relation of
+    EntsOf) and every transition becomes a step.  quick: every entity relation in the canonical envelope on a
+    stream with one and with two partitions + every byte class with the default entities; thorough: all of them."""
+    g = graph.tlc_dump('MC_Envelope.tla', 'MC_Envelope_sweep.cfg')
+    steps = {}
+    for u, v, l in g['edges']:
+        last = tlaval.state_var(g['nodes'][v], 'last')
+        if last['a'] != 'Subject':
+            continue
+        canon = all(last['i'][k] == CANON[k] for k in CANON) and last['pbOK']
+        default = last['ent']['op'] == 'none' and all(last['ent'][k] == d for k, d in
+                                                       (('s', 'absent'), ('p', 'first'), ('r', 'self'), ('e', 'zero')))
+        steps.setdefault(last['h'], []).append((canon, default, dict(last)))
+    stats['sweep_transitions'] = sum(len(v) for v in steps.values())
+    out = []
+    tail = [{'a': 'PublishRaw', 'i': CANON, 'pbOK': True, 'id': 1, 'shape': 'plain'}, {'a': 'ReadBack'}]
+
+    def add(sel, parts, size):
+        for h in sorted(steps):
+            mine = sorted((st for c, d, st in steps[h] if sel(c, d)), key=lambda st: json.dumps(st, sort_keys=True))
+            for k in range(0, len(mine), size):
+                out.append({'id': first_id + len(out), 'cfg': {'seed': seed, 'parts': parts}, 'steps': mine[k:k + size] + tail})
+    if tier == 'thorough':
+        add(lambda c, d: True, 2, 60)
+        add(lambda c, d: c, 1, 40)
+    else:
+        add(lambda c, d: c, 2, 24)
+        add(lambda c, d: c, 1, 24)
+        add(lambda c, d: d and not c, 1, 60)
+    stats['sweep_steps'] = sum(len(b['steps']) - 2 for b in out)
     return out
 
 
@@ -232,6 +291,8 @@ def run_server(rep, d, behaviours, tracecfg, stats):
         obs = {'a': a, 'k': 'Crash', 'same': False}
         if a == 'ReadBack':
             obs['got'] = []
+        if a == 'Subject':
+            obs['reply'] = 'none'
         out_lines.append({'a': a, 't': it['t'], 'args': it['args'], 'st': {'up': False, 'stored': stored}, 'obs': obs,
                           'died': (re.search(r'^panic:.*$', out, re.M) or re.search(r'^fatal error:.*$', out, re.M)).group(0)[:200]})
         idx = [k for k, b in enumerate(remaining) if b['id'] == it['t']][0]
@@ -239,19 +300,29 @@ def run_server(rep, d, behaviours, tracecfg, stats):
         if crashes >= 6:     # every death is already a recorded violation; do not restart for ever
             stats['server_behaviours_skipped'] = len(remaining)
             break
+    sites = source_sites()
+    for e in out_lines:
+        if e['a'] == 'Inventory':
+            e['sites'] = sites
+            stats['live_subjects'] = e['subs']
     with open(trace, 'w') as fh:
         for e in out_lines:
             fh.write(json.dumps(e) + '\n')
     by_id = {b['id']: b for b in behaviours}
 
     def rp(e, j):
-        cls = cls_of(e['args']['i']) if e['a'] in ('PublishRaw', 'Internal') else '-'
+        cls = cls_of(e['args']['i']) if e['a'] in ('PublishRaw', 'Internal', 'Subject') else '-'
+        if e['a'] == 'Subject':
+            x = e['args']['ent']
+            ent = ':%s' % '/'.join('%s=%s' % (k, x[k]) for k in ('op', 's', 'p', 'r', 'e') if x[k] != NOENT[k]) if cls == 'valid' and e['args']['pbOK'] else ''
+            return '%s:%s%s' % (e['args']['h'], cls, ent), {'kind': 'server', 'behaviours': [by_id[e['t']]]}
         if e['a'] == 'Internal':
             cls = '%s:%s%s' % (e['args']['h'], cls, (':shape%d' % e['args']['shape']) if cls == 'valid' and e['args']['pbOK'] else '')
         return cls, {'kind': 'server', 'behaviours': [by_id[e['t']]]}
     judge(rep, trace, tracecfg, rp, stats)
     stats['server_crashes'] = crashes
-    stats['internal'] = sum(1 for e in out_lines if e['a'] == 'Internal')
+    stats['internal'] = sum(1 for e in out_lines if e['a'] in ('Internal', 'Subject'))
+    stats['subject_steps'] = stats.get('subject_steps', 0) + sum(1 for e in out_lines if e['a'] == 'Subject')
     return sum(1 for e in out_lines if e['a'] == 'PublishRaw')
 
 
@@ -316,6 +387,7 @@ def run(rep, tier, seed, replay):
                 behaviours.append({'id': n + 1, 'cfg': {'seed': seed}, 'steps': steps})
         behaviours += arrival_variants(len(sims) + 2000, seed, rng, behaviours)
         behaviours += shape_sweep(len(sims) + 1000, seed)
+        behaviours += subject_sweep(len(sims) + 3000, seed, tier, stats)
         npub = run_server(rep, d, behaviours, T['trace'], stats)
     rep.cov['traces_validated_against_impl'] = n1 + n2 + len(behaviours)
     rep.cov['trace_lines_validated'] = stats.get('lines', 0)
@@ -326,6 +398,10 @@ def run(rep, tier, seed, replay):
     rep.cov['server_behaviours'] = len(behaviours)
     rep.cov['server_publishes'] = npub
     rep.cov['server_internal_rpc_messages'] = stats.get('internal', 0)
+    rep.cov['subject_messages'] = stats.get('subject_steps', 0)
+    rep.cov['subject_sweep_transitions_of_model'] = stats.get('sweep_transitions', 0)
+    rep.cov['subject_sweep_steps_replayed'] = stats.get('sweep_steps', 0)
+    rep.cov['live_subjects'] = stats.get('live_subjects', [])
     rep.cov['server_process_deaths'] = stats.get('server_crashes', 0)
     rep.cov['distinct_nontrivial'] = len(nt1 | nt2) + len({core.sha(b['steps']) for b in behaviours if nontrivial_beh(b)})
     rep.cov['rule'] = ('table: every (abstract input, pbOK) of the configured product, each executed on all 15 decoders '
